@@ -447,7 +447,106 @@ Proof.
     destruct (C16Lines.rd_factors_l D T parse ofZ _ _ _) as [fs|] eqn:Ef; [|discriminate]. cbn [bindo].
     intros H; inversion H; subst. cbn [kfactors kweights]. intros ->. apply rd_factors_l_length in Ef. cbn in Ef. congruence.
 Qed.
+
+(* ---- whatever file import_data accepts, the object it returns satisfies the class invariants (wf_obj and wf_lines): dense
+   data as long as the shape says, one value per stored subscript and every subscript inside the shape, factor matrices with
+   as many columns as there are weights, matrices with m rows of n entries ---- *)
+Lemma rd_vals_aux_length n s q : C16Lines.rd_vals_aux D T parse ofZ n s = Some q -> length (fst q) = n.
+Proof.
+  revert s q; induction n as [|n IH]; intros s q H; cbn in H; [inversion H; reflexivity|].
+  destruct (C16Lines.skip_ws T s) as [|[t|] r]; try discriminate.
+  destruct (val_tok D T parse ofZ t) as [v|]; [|discriminate]. cbn [bindo] in H.
+  destruct (C16Lines.rd_vals_aux D T parse ofZ n r) as [q'|] eqn:E; [|discriminate]. cbn [bindo] in H. inversion H; subst.
+  cbn. f_equal. eapply IH, E.
+Qed.
+Lemma rd_vals_length n s q : C16Lines.rd_vals D T parse ofZ n s = Some q -> length (fst q) = n.
+Proof.
+  unfold C16Lines.rd_vals. destruct n; [intros H; inversion H; reflexivity|].
+  destruct (C16Lines.rd_vals_aux D T parse ofZ (S n) s) as [q'|] eqn:E; [|discriminate]. cbn [bindo].
+  intros H; inversion H; subst. cbn [fst]. eapply rd_vals_aux_length, E.
+Qed.
+Lemma reshapeC2_rows m n (l : list D) : length l = m * n ->
+  length (reshapeC2 D m n l) = m /\ Forall (fun r => length r = n) (reshapeC2 D m n l).
+Proof.
+  intros H. unfold reshapeC2. split; [now rewrite map_length, seq_length|].
+  rewrite Forall_forall. intros r Hr. apply in_map_iff in Hr as (i & <- & Hi). apply in_seq in Hi.
+  rewrite firstn_length, skipn_length, H. nia.
+Qed.
+Lemma rd_factors_l_wf R n s fs : C16Lines.rd_factors_l D T parse ofZ R n s = Some fs ->
+  Forall (fun A => Forall (fun r : list D => length r = R) A) fs.
+Proof.
+  revert s fs; induction n as [|n IH]; intros s fs H; cbn in H; [inversion H; constructor|].
+  destruct (rd_shape_l T _) as [sh|]; [|discriminate]. cbn [bindo] in H.
+  destruct (fst sh) as [|m [|c [|k r]]]; try discriminate. destruct (Nat.eqb_spec c R) as [Ec|]; [|discriminate].
+  destruct (C16Lines.rd_vals D T parse ofZ _ _) as [v|] eqn:Ev; [|discriminate]. cbn [bindo] in H.
+  destruct (C16Lines.rd_factors_l D T parse ofZ R n _) as [q|] eqn:E; [|discriminate]. inversion H; subst.
+  constructor; [|eapply IH, E]. apply reshapeC2_rows. eapply rd_vals_length, Ev.
+Qed.
+Lemma rd_upto_length n s : length (fst (rd_upto D T parse ofZ n s)) <= n.
+Proof.
+  revert s; induction n as [|n IH]; intros s; cbn; [lia|].
+  destruct (C16Lines.skip_ws T s) as [|[t|] r]; cbn; try lia.
+  destruct (val_tok D T parse ofZ t); cbn; [specialize (IH r); lia|lia].
+Qed.
+
+Theorem import_wf b (f : list line) o : import_lines b f = Some o -> wf_obj D o /\ wf_lines D o.
+Proof.
+  intros H. pose proof (import_order0 b f o H) as H0. revert H.
+  unfold C16Lines.import_lines, C16Lines.import_stream.
+  destruct (fst (C16Lines.readline T (C16Lines.to_stream T f))) as [|[w|z|x] l']; try discriminate.
+  destruct (String.eqb w "tensor").
+  { destruct (rd_shape_l T _) as [sh|]; [|discriminate]. cbn [bindo].
+    destruct (C16Lines.rd_vals D T parse ofZ _ _) as [v|] eqn:E; [|discriminate]. cbn [bindo]. intros H; inversion H; subst.
+    apply rd_vals_length in E. cbn [wf_obj wf_lines]. split; [|exact I].
+    rewrite (tensor_of_data D d0) by exact E. unfold wf_tensor. cbn. exact E. }
+  destruct (String.eqb w "sptensor").
+  - intros H. split.
+    + destruct o as [X|Sp|K|m n A|s c]; try (exfalso; revert H;
+        destruct (rd_shape_l T _) as [sh|]; [|discriminate]; cbn [bindo];
+        destruct (head_int T _) as [zn|]; [|discriminate]; cbn [bindo]; destruct (nat_of zn) as [nz|]; [|discriminate]; cbn [bindo];
+        destruct (C16Lines.rd_entries_l D T parse ofZ b _ nz _) as [es|]; [|discriminate]; cbn [bindo];
+        destruct (order0_bad (fst sh) nz); [discriminate|];
+        destruct (forallb (inb (fst sh)) (map fst es)); discriminate).
+      revert H. destruct (rd_shape_l T _) as [sh|]; [|discriminate]. cbn [bindo].
+      destruct (head_int T _) as [zn|]; [|discriminate]. cbn [bindo]. destruct (nat_of zn) as [nz|]; [|discriminate]. cbn [bindo].
+      destruct (C16Lines.rd_entries_l D T parse ofZ b _ nz _) as [es|]; [|discriminate]. cbn [bindo].
+      destruct (order0_bad (fst sh) nz); [discriminate|].
+      destruct (forallb (inb (fst sh)) (map fst es)) eqn:E; [|discriminate]. intros H; inversion H; subst. cbn [wf_obj sshape ssubs svals].
+      split; [now rewrite !map_length|]. rewrite forallb_forall in E. now apply Forall_forall.
+    + destruct o as [X|Sp|K|m n A|s c]; cbn [wf_lines]; auto. intros Es. apply (H0 Es).
+  - destruct (String.eqb w "matrix").
+    { destruct (rd_shape_l T _) as [sh|]; [|discriminate]. cbn [bindo].
+      destruct (fst sh) as [|m [|n [|k r]]] eqn:Es; destruct (C16Lines.rd_vals D T parse ofZ _ _) as [v|] eqn:E; try discriminate;
+        cbn [bindo]; intros H; inversion H; subst; apply rd_vals_length in E; cbn [wf_obj wf_lines]; (split; [|exact I]).
+      - split; [exact E|cbn; lia].
+      - split; [exact E|cbn; lia].
+      - apply reshapeC2_rows. exact E.
+      - split; [exact E|cbn; lia]. }
+    destruct (String.eqb w "ktensor"); [|discriminate].
+    destruct (rd_shape_z T _) as [sh|]; [|discriminate]. cbn [bindo].
+    destruct (head_int T _) as [zn|]; [|discriminate]. cbn [bindo]. destruct (nat_of zn) as [nz|]; [|discriminate]. cbn [bindo].
+    destruct (Nat.eqb (length (fst sh)) 0).
+    { destruct (Nat.eqb nz 0); [|discriminate]. intros H; inversion H; subst. cbn. split; [constructor|reflexivity]. }
+    destruct (C16Lines.rd_factors_l D T parse ofZ _ _ _) as [fs|] eqn:Ef; [|discriminate]. cbn [bindo].
+    intros H; inversion H; subst. cbn [wf_obj wf_lines]. split; [|exact H0].
+    unfold krank. cbn [kweights kfactors]. eapply rd_factors_l_wf, Ef.
+Qed.
 End G.
+
+(* ================================================================ import's range is inside the round-trip domain *)
+(* whatever object import_data returns for SOME file (any file it accepts, any index base b'), exporting it and importing
+   the result gives that object again: nothing import_data can return is lost or changed by a further export / import *)
+Section S.
+Variables (D T : Type) (d0 : D) (print : D -> T) (parse : T -> D) (ofZ : Z -> D).
+Hypothesis parse_print : forall v : D, parse (print v) = v.
+Theorem import_export_stable b b' (f : list (list (token T))) (o : obj D) :
+  import_lines D T d0 parse ofZ b' f = Some o ->
+  import_lines D T d0 parse ofZ b (export_lines D T d0 print b o) = Some o.
+Proof.
+  intros H. destruct (import_wf D T d0 parse ofZ b' f o H) as [W L].
+  now apply (roundtrip_lines D T d0 print parse ofZ parse_print).
+Qed.
+End S.
 
 (* ================================================================ the optional format arguments *)
 (* export_data(data, file, fmt_data, fmt_weights) only replaces the printf format of the number texts: the LAYOUT of the
